@@ -275,7 +275,8 @@ pub fn short_streams(r: &mut Rng, fam: Fam, maxlen: usize) -> Vec<Vec<u8>> {
 pub fn c05(ctx: &mut Ctx, layer: &str) {
     let (maxlen, n_rand): (usize, usize) = match layer {
         "miri" => (if ctx.thorough { 4 } else { 3 }, if ctx.thorough { 4_000 } else { 120 }),
-        "vg" => (6, 10_000),
+        "vg" => (6, if ctx.thorough { 400_000 } else { 10_000 }),
+        "asan" => (8, 1_500_000),
         _ => {
             if ctx.thorough {
                 (10, 5_000_000)
